@@ -47,6 +47,7 @@ type Contract struct {
 	RetExpr  map[*Directive]CExpr
 	BefCall  []CExpr
 	HavocCalls []string
+	FrameCalls []string
 	BefRet   []CExpr
 	Assigns  []CExpr
 	NonNil   []CExpr
@@ -741,6 +742,11 @@ func (w *World) resolve(c *Contract, si *sigInfo) error {
 				return fmt.Errorf("%s:%d: missing: no call %q in %s", b.File, d.Line, d.CallText, b.Key())
 			}
 			c.HavocCalls = append(c.HavocCalls, d.CallText)
+		case "framecall":
+			if len(w.callSites(c, d)) == 0 {
+				return fmt.Errorf("%s:%d: missing: no call %q in %s", b.File, d.Line, d.CallText, b.Key())
+			}
+			c.FrameCalls = append(c.FrameCalls, d.CallText)
 		case "onassign":
 			// ghost update at every assignment whose left-hand side has the given text
 			var site ast.Node
